@@ -31,7 +31,8 @@ func (c13) Rule() string {
 	return "each run: seeded tree forced to contain at least one multi-cause node (errors.Join, stdlib Join, fmt.Errorf with several %w, registered and unregistered user types; " +
 		"nested and wrapped), regular strings; route of 1..5 hops over knowing and unknowing processes; per delivery: branch count/order/shape and per-branch text, " +
 		"every branch's message tokens in %+v, Unwrap/UnwrapOnce nil at multi nodes, Is(M,r) = self(M,r) or some branch (reference model of self-match), IsAny = disjunction, " +
-		"As assigns the first node of the reference depth-first order; at the origin: Join drops nils and joins texts with newlines; " +
+		"As assigns the first node of the reference depth-first order; at the origin: Join drops nils and joins texts with newlines; the entries of every branch are counted in %+v " +
+		"(the same object may sit in two branches); 1 run in 5 uses hostile strings and checks the local semantics only; " +
 		"distinct = (constructor-shape signature x profile sequence); non-trivial = at least one multi node with >= 2 branches and >= 1 hop"
 }
 
